@@ -148,14 +148,23 @@ def run_model(model_driver, cf, timeout, env):
     lines = open(cf).read().split("\n")
     if lines and lines[-1] == "":
         lines.pop()
+    def big_stack():
+        # the extracted model recurses over lists as long as the input (200 000 unknown fields, 10 000 nested groups):
+        # give it the whole stack the system allows instead of the 8 MB default
+        import resource
+        try:
+            hard = resource.getrlimit(resource.RLIMIT_STACK)[1]
+            resource.setrlimit(resource.RLIMIT_STACK, (hard, hard))
+        except Exception:  # noqa
+            pass
     nsh = min(int(os.environ.get("VERIF_MODEL_SHARDS", "12")), len(lines) // 24)
     if lines and max(len(l) for l in lines) > 1000000:
         nsh = min(nsh, 4)       # megabyte-sized rows (deep nesting, 200 000 unknown fields) cost the model about 8 GB each
     if nsh <= 1:
-        rc, so, se = C.run([model_driver, cf], check=False, timeout=timeout, env=env)
-        if rc != 0:
-            raise RuntimeError("model driver failed: " + se[-2000:])
-        return so.split("\n")
+        p = subprocess.run([model_driver, cf], stdout=subprocess.PIPE, stderr=subprocess.PIPE, text=True, timeout=timeout, env=env, preexec_fn=big_stack)
+        if p.returncode != 0:
+            raise RuntimeError("model driver failed: " + p.stderr[-2000:])
+        return p.stdout.split("\n")
     procs = []
     for k in range(nsh):
         idx = [i for i, l in enumerate(lines) if i % nsh == k or l.startswith("schema\t")]
@@ -163,7 +172,7 @@ def run_model(model_driver, cf, timeout, env):
         with open(sf, "w") as f:
             f.write("".join(lines[i] + "\n" for i in idx))
         # output goes to a file: a pipe would fill and serialise the shards
-        procs.append((k, idx, sf, subprocess.Popen([model_driver, sf], stdout=open(sf + ".out", "w"), stderr=subprocess.PIPE, text=True, env=env)))
+        procs.append((k, idx, sf, subprocess.Popen([model_driver, sf], stdout=open(sf + ".out", "w"), stderr=subprocess.PIPE, text=True, env=env, preexec_fn=big_stack)))
     out = ["?"] * len(lines)
     err = None
     for k, idx, sf, p in procs:
